@@ -528,10 +528,11 @@ pub fn perm(seed: u64, count: usize, threads: usize) -> Value {
 // C19
 
 const VARIANT_SHAPES: &[(&str, bool)] = &[
-    ("A", false), ("A(u32)", false), ("A()", true), ("A(u32, u32)", true), ("A {}", true), ("A { x: u32 }", true), ("A(&'s str)", false),
+    ("A", false), ("Ärger", false), ("Ж(u32)", false), ("A(u32)", false), ("A()", true), ("A(u32, u32)", true), ("A {}", true), ("A { x: u32 }", true), ("A(&'s str)", false),
 ];
 
 const MALFORMED_ARGS: &[&str] = &[
+    "\"a\", приоритет = 1", "\"a\", ignore(регистр)", "\"a\", é", "\"a\", callback = ", "\"a\", priority = 3, callback = , ignore(case)", "\"a\", ignore(case,)", "\"a\", ignore(,case)",
     "\"a\", callback = f, callback = g", "\"a\", priority = 1, priority = 2", "\"a\", f, g", "\"a\", priority = x", "\"a\", priority", "\"a\", ignore(caseless)",
     "\"a\", ignore()", "\"a\", ignore(case, case)", "\"a\", allow_greedy = maybe", "\"a\", allow_greedy = true, allow_greedy = false", "\"a\", callback", "\"a\", unknown = 3",
     "", "1", "\"a\" \"b\"", "\"a\",, f", "b'a'", "\"a\", |x y| 1", "\"a\", |lex|", "\"a\", ignore(ascii_case)", "\"a\", callback = |a, b| 1", "'a'", "\"a\", priority = -1",
@@ -539,6 +540,7 @@ const MALFORMED_ARGS: &[&str] = &[
 ];
 
 const MALFORMED_ITEMS: &[&str] = &[
+    "écart = 1", "тип", "日本語(x)", "é", "ünicode = \"a\"", "skip(\"a\", прио = 1)", "error(E, обратный = f)", "subpattern ß = \"a\"", "type Ж = u8",
     "error = E, error = F", "error(E, callback = f, callback = g)", "error(E, f, g)", "error(E, callback)", "error()", "error", "extras = X, extras = Y", "utf8 = false, utf8 = true",
     "utf8 = maybe", "utf8", "skip", "skip 1", "skip(\"a\", callback = f, callback = g)", "skip()", "subpattern", "subpattern x", "subpattern x = 1", "subpattern 1 = \"a\"",
     "crate", "crate = ", "source = str", "export_dir = 1", "type T", "type T = ", "unknown", "unknown = 1", "lifetime = 'a, lifetime = 'b", "\"literal\"", "skip(\"a\") priority = 3",
@@ -719,6 +721,58 @@ pub enum X4 {
 }
 "#,
 ];
+
+/// Definitions stamped out by `macro_rules!` helpers: `$t:ty` fragments reach the derive wrapped in
+/// `Delimiter::None` groups (syn: `Type::Group`), which only happens with rustc as the macro host.
+/// Must compile; never run through the library entry point.
+const RAW_RUSTC_ONLY: &[&str] = &[
+    r#"macro_rules! word_lexer {
+    ($name:ident, $lt:lifetime, $word:ty, $num:ty) => {
+        #[derive(Logos, Debug, PartialEq)]
+        #[logos(skip " +")]
+        pub enum $name<$lt> {
+            #[regex("[a-z]+", |lex| lex.slice())]
+            Word($word),
+            #[regex("[0-9]+", |lex| lex.slice().parse::<$num>().ok().map(|n| (n, lex.slice())))]
+            Number(($num, $word)),
+        }
+    };
+}
+word_lexer!(MTok1, 'a, &'a str, u32);
+"#,
+    r#"macro_rules! number_lexer {
+    ($name:ident < $param:ident = $concrete:ty >, $payload:ty) => {
+        #[derive(Logos, Debug, PartialEq)]
+        #[logos(skip " +", type $param = $concrete)]
+        pub enum $name<$param> {
+            #[regex("[0-9]+", |lex| lex.slice().parse::<$concrete>().ok())]
+            Number($payload),
+            #[token("+")]
+            Plus,
+        }
+    };
+}
+number_lexer!(MTok2<N = u64>, N);
+number_lexer!(MTok3<N = u16>, Option<N>);
+"#,
+    r#"macro_rules! with_literals {
+    ($name:ident, $kw:literal, $re:literal, $prio:literal) => {
+        #[derive(Logos, Debug, PartialEq)]
+        pub enum $name {
+            #[token($kw, priority = $prio)]
+            Kw,
+            #[regex($re)]
+            Re,
+        }
+    };
+}
+with_literals!(MTok4, "let", "[a-z]+", 30);
+"#,
+];
+
+pub fn rustc_only_specimens() -> &'static [&'static str] {
+    RAW_RUSTC_ONLY
+}
 
 pub const ENUM_MARKER: &str = "//---ENUM---";
 
@@ -979,6 +1033,9 @@ pub fn rsample_sources(seed: u64, count: usize) -> Vec<(String, String, Vec<Stri
         };
         out.push((src, kind, msgs, clean));
     }
+    for src in RAW_RUSTC_ONLY {
+        out.push((src.to_string(), "accepted".to_string(), vec![], true));
+    }
     out
 }
 
@@ -1041,6 +1098,12 @@ pub fn rsample_write(seed: u64, count: usize, dir: &std::path::Path) -> Value {
             false
         };
         for n in names {
+            if src.contains(&format!("{n}::skip")) {
+                // a user function called `skip` in a module of its own
+                let ret = if on_value_variant(&n) { ("<'s, T: Logos<'s>, R>", "Filter<R>", "Filter::Skip") } else { ("<'s, T: Logos<'s>>", "()", "") };
+                m.push_str(&format!("mod {n} {{ use super::*; pub fn skip{}(_lex: &mut Lexer<'s, T>) -> {} {{ {} }} }}\n", ret.0, ret.1, ret.2));
+                continue;
+            }
             if n.ends_with("_errcb") {
                 m.push_str(&format!("fn {n}<'s, T: Logos<'s>>(_lex: &mut Lexer<'s, T>) -> VErr {{}}\n"));
             } else if on_value_variant(&n) {
